@@ -1183,13 +1183,13 @@ example : ¬ PFine (ts_manhattan_distance_matrix_rp_psites
   simp at this
 
 /-- integer counters of the kernels (`x += 1`, `x -= 1` on a typed C integer): every scalar counter
-is at least 32 bits wide, and the only buffer that is counted in place in a narrower element type is
-`nR` (int16) of `_twins_s` — it starts at `n_time` and is decremented at most `n_time - 1` times, so it
-stays in `[1, n_time]` and fits for `n_time < 2^15`; beyond that the conversion is
-implementation-defined (not undefined) and the value is only a pre-filter of the exact row comparison -/
+is at least 32 bits wide, and no buffer is counted in place in a narrower element type.  (Up to
+round 3 the neighbour counter `nR` of `_twins_s` was int16; C15 showed that it loses twins from
+`n_time = 65537` on and the counter was widened by a `fix:` commit, after which this census — which
+reads the current source — lists no narrow counter at all.) -/
 theorem narrow_counters_census :
     scalar_counters.all (fun c => decide (32 ≤ c.2.2.1)) = true
-    ∧ buffer_counters.filter (fun c => decide (c.2.2.1 < 32)) = [("timeseries:_twins_s", "nR", 16, "-=")] := by
+    ∧ buffer_counters.filter (fun c => decide (c.2.2.1 < 32)) = [] := by
   decide
 
 end Pyunicorn.Access
